@@ -135,6 +135,7 @@ func (f *DocumentTitleMatch) processPotentialTitle(title string) {
 	if _, exist := f.potentialTitles[title]; exist {
 		return
 	}
+	f.potentialTitles[title] = struct{}{}
 
 	for _, rx := range rxDtmLongestPartPatterns {
 		if p := f.getLongestPart(title, rx); p != "" {
